@@ -209,6 +209,21 @@ def expHeadBad : List Nat → Bool
   | [] => true
   | d :: r2 => !isDigitB d && ((d != 43 && d != 45) || !(r2.head?.any isDigitB))
 
+/-- lines 465–472 on the text after the `e`: (`sgn_exp = −1`, the text from `ps` on) -/
+def expSign : List Nat → Bool × List Nat
+  | [] => (false, [])
+  | d :: r2 => if d == 45 then (true, r2) else if d == 43 then (false, r2) else (false, d :: r2)
+
+/-- lines 474–503: `neg` = (`sgn_exp = −1`), the text from `ps` on, whose head is the `c` that is unwrapped -/
+def expDigits (neg : Bool) : List Nat → Except String (Option Int)
+  | [] => .error "line 474: c.unwrap()"
+  | d0 :: r3 =>
+    let e0 : Int := (d0 : Int) - 48
+    -- line 478: only a leading `0` makes the code skip zeros
+    match expLoop (if e0 == 0 then r3.dropWhile (· == 48) else r3) 1 e0 with
+    | .error site => .error site
+    | .ok e => .ok (some (if neg then -e else e))     -- (dec_expon + sgn_exp) ^ sgn_exp
+
 /-- lines 446–503 on the text from `ps` on: `.ok none` is the `return NaN` of lines 449 and 460, `.ok (some e)` is
 `dec_expon` after line 503.  Whatever follows the exponent digits that were read is ignored. -/
 def scanExp : List Nat → Except String (Option Int)
@@ -216,18 +231,7 @@ def scanExp : List Nat → Except String (Option Int)
   | c :: r1 =>
     if c != 101 && c != 69 then .ok none
     else if expHeadBad r1 then .ok none
-    else
-      let sgn := r1.head? == some 45
-      let r2 := if r1.head? == some 45 || r1.head? == some 43 then r1.tail else r1
-      match r2 with
-      | [] => .error "line 474: c.unwrap()"
-      | d0 :: r3 =>
-        let e0 : Int := (d0 : Int) - 48
-        -- line 478: only a leading `0` makes the code skip zeros
-        let r4 := if e0 == 0 then r3.dropWhile (· == 48) else r3
-        match expLoop r4 1 e0 with
-        | .error site => .error site
-        | .ok e => .ok (some (if sgn then -e else e))     -- (dec_expon + sgn_exp) ^ sgn_exp
+    else expDigits (expSign r1).1 (expSign r1).2
 
 /-- The state handed to the numeric phase, as a `Literal`.  `nb` = `ndigits_before`, `buf` = the stored digits,
 `z` = `right_radix_leading_zeros`, `r` = the text from `ps` on.
